@@ -456,16 +456,26 @@ func runBlockBase(sc *BlockCase, res *BlockResult) {
 	case "closeAfterFailedDisconnect":
 		// another goroutine's Disconnect fails to write DISCONNECT (it returns the error, the transport stays open);
 		// the application then ends the connection with Close()
-		dctx, dcancel := context.WithTimeout(root, time.Second)
-		derr := cli.Disconnect(dctx)
-		dcancel()
-		if derr == nil || t.IsClosed() {
-			res.Steered = false
-			res.Note = "Disconnect did not fail as planned"
-			return
-		}
+		dret := make(chan callRet, 1)
+		go func() {
+			dctx, dcancel := context.WithTimeout(root, time.Second)
+			defer dcancel()
+			dret <- callRet{cli.Disconnect(dctx), time.Now()}
+		}()
 		also = make(chan callRet, 1)
-		also <- callRet{derr, time.Now()}
+		select {
+		case r := <-dret:
+			if r.err == nil || t.IsClosed() {
+				res.Steered = false
+				res.Note = "Disconnect did not fail as planned"
+				return
+			}
+			also <- r
+		case <-time.After(1500 * time.Millisecond):
+			// Disconnect is held up somewhere else: Close() has to end the connection all the same, and Disconnect with it
+			res.Note = "Disconnect had not returned when Close was called"
+			also = dret
+		}
 		res.Also = "disconnect"
 		t0 = time.Now()
 		cli.Close()
@@ -481,11 +491,9 @@ func runBlockBase(sc *BlockCase, res *BlockResult) {
 		}()
 		select {
 		case <-g.Reached():
-		case <-time.After(2 * time.Second):
-			res.Steered = false
-			res.Note = "Disconnect did not reach its write"
-			g.Release()
-			return
+		case <-time.After(1500 * time.Millisecond):
+			// it did not even get to its write: Close() has to end the connection all the same
+			res.Note = "Disconnect had not reached its write when Close was called"
 		}
 		go func() {
 			waitFor(t.IsClosed, 6*time.Second)
